@@ -492,6 +492,7 @@ def r10_varlen_exits(facts):
     stop leaves the tail of a long delta time in the stream, where it is parsed as the next event."""
     out = []
     fn = facts.fn('readVarLenEx')
+    end_id = fn.params[1]['id'] if len(fn.params) > 1 else None      # (cursor **, end *, ok &)
     loops = [x for x in walk(fn.tree) if isinstance(x, dict) and x.get('k') in ('ForStmt', 'WhileStmt', 'DoStmt')]
     if not loops:
         raise build.AnalysisBroken('C07.R10: loop of readVarLenEx not found')
@@ -526,7 +527,7 @@ def r10_varlen_exits(facts):
                 # continuation bit clear
                 if f[0] == 'truth' and not f[2] and mentions(f[1], lambda y: y.get('k') == 'BinaryOperator' and y.get('op') == '&' and 0x80 in (const_of(y['l']), const_of(y['r']))):
                     why = 'byte without the continuation bit'
-                if f[0] == 'cmp' and mentions(f[3], lambda y: y.get('parm') and short(y.get('n', '')) == 'end') or f[0] == 'cmp' and mentions(f[2], lambda y: y.get('parm') and short(y.get('n', '')) == 'end'):
+                if f[0] == 'cmp' and (mentions(f[3], lambda y: y.get('parm') and y.get('id') == end_id) or mentions(f[2], lambda y: y.get('parm') and y.get('id') == end_id)):
                     why = why or 'end of the data'
                 n_ = cmp_norm(f) if f[0] == 'cmp' else None
                 if n_ and n_[0] in ('>=', '>', '==') and isinstance(n_[2], int):
